@@ -99,7 +99,21 @@ class Checker(object):
             t = types[name]
             s = env.formula_manager.Symbol(name, B.to_pytype(t, env))
             asg[s] = B.build(R.value_to_bp(v, t), env)
-        return EagerModel(asg, env)
+        model = EagerModel(asg, env)
+        # the caller goes on using its own dictionary: the model is the
+        # assignment it was given, not whatever the dictionary becomes
+        self.nmodels = getattr(self, 'nmodels', 0) + 1
+        if self.nmodels % 3 == 1:
+            asg.clear()
+            self.rep.count('caller_dict_mutated_after_model')
+        elif self.nmodels % 3 == 2:
+            for s in list(asg):
+                d = default_of(B.from_pytype(s.symbol_type()))
+                if d is not None:
+                    asg[s] = B.build(R.value_to_bp(
+                        d, B.from_pytype(s.symbol_type())), env)
+            self.rep.count('caller_dict_mutated_after_model')
+        return model
 
     def judge_once(self, b, A, partial_drop=()):
         """b: QF UF-free blueprint over symbols; A: name -> value (total).
@@ -187,6 +201,19 @@ class Checker(object):
                         % (B.show(fb, 200), Acomp, sat, expected)
                 self.rep.count('satisfies_compared')
         # ---- without completion
+        if not missing and exc is None and not (uncompletable or
+                                                unconstrained):
+            try:
+                got_nc = model.get_value(f, model_completion=False)
+            except Exception as e:
+                return 'exc:' + common.exc_name(e), (
+                    'get_value(model_completion=False) raised %r although '
+                    'the model assigns every symbol' % (e,))
+            if got_nc is not got:
+                return 'nocompletion-total', (
+                    '%s: %s without completion, %s with, in a model that '
+                    'assigns every symbol' % (B.show(fb, 150), got_nc, got))
+            self.rep.count('nocompletion_total_models')
         if missing:
             got2 = exc2 = None
             try:
